@@ -11,6 +11,12 @@ An abstract program is a list of nodes in creation order; a node is a dict with 
   {"k": "if",   "a": id, "b": id, "then": block, "else": block}   If(Less(a, b), ...)
   {"k": "loop", "n": 2, "init": id, "body": block}                Loop(M=n, True, [init], body)
   block = {"formals": [ids of the body's own arguments], "nodes": [...], "res": [ids]}
+  Control-flow operands that are *arguments directly* (nothing in between):
+  {"k": "if", "c": id, ...}                 If(c, ...) with `c` a bool rank-0 argument (no "a"/"b")
+  {"k": "loop", "m": id, "cnd": id, ...}    trip count an i64 rank-0 argument / condition a bool rank-0 argument
+  {"k": "scan", "init": id, "xs": id?, "body": block}   Scan(state=init, scan input = an f32 rank-1 argument
+                                            `xs` directly, or a constant vector); value = the final state
+  f32 rank-0 arguments are scalars like any other value (operands of Add, Less, Loop/Scan state, ...).
 
 Every non-arg value is an f32 scalar, so any two of them can be combined; arguments have random
 element types and shapes (constant, symbolic and unknown dimensions) and enter through `lift`.
@@ -26,8 +32,41 @@ import numpy as np
 ELEMS = {"f32": (np.float32, 1), "u8": (np.uint8, 2), "i8": (np.int8, 3), "u16": (np.uint16, 4), "i16": (np.int16, 5),
          "i32": (np.int32, 6), "i64": (np.int64, 7), "bool": (np.bool_, 9), "f16": (np.float16, 10),
          "f64": (np.float64, 11), "u32": (np.uint32, 12), "u64": (np.uint64, 13)}
+try:  # element types without a numpy-native dtype / without Cast support in every runtime
+    import ml_dtypes as _mld
+
+    ELEMS["bf16"] = (_mld.bfloat16, 16)
+except Exception:  # noqa: BLE001 - not installed: one element type fewer
+    pass
+ELEMS["str"] = (np.str_, 8)
+ELEMS["c64"] = (np.complex64, 14)
+SIZE_LIFT = {"str", "bf16", "c64"}   # arguments of these types enter a program through Size (element count), not Cast
 SYM = {"N": 2, "M": 3, "K": 1}
 SCALAR = {"e": "f32", "d": []}
+
+
+def covered_code_changes(ck):
+    """tie G for `build` itself: regenerate the statement list of `_public.build`
+    (Generated/BuildFrontIR.lean, obligation `generated_build_good`) and compare the normalised-AST
+    digests of the functions the front-end model covers with the committed ones. Returns the list
+    of covered functions whose code differs from what the model was written against (evidence; the
+    checks then run with larger counts). Never raises."""
+    import json
+    from pathlib import Path
+
+    try:
+        from translator import build_front_ir
+
+        info = build_front_ir.generate()
+        ck.cov["generated_build_statements"] = info["ir"]
+        pinned = json.loads((Path(__file__).parent / "pinned_c03c12_digests.json").read_text())
+        changed = sorted(k for k in set(pinned) | set(info["digests"]) if pinned.get(k) != info["digests"].get(k))
+        ck.cov["covered_functions"] = len(info["digests"])
+        ck.cov["covered_functions_changed"] = changed
+        return changed
+    except Exception as e:  # noqa: BLE001
+        ck.broken("translator", "translator/build_front_ir.py could not read src/spox", f"{type(e).__name__}: {e}")
+        return ["<unreadable>"]
 
 
 # ----------------------------------------------------------------------------- types
@@ -63,13 +102,14 @@ def proto_ty_str(tp) -> str:
     return f"{tt.elem_type}:[" + ",".join(dims) + "]"
 
 
-def gen_type(rng: random.Random, tensor_only=False):
+def gen_type(rng: random.Random, tensor_only=False, basic=False):
+    """`basic`: only element types every sequence / optional operator of opset 17 accepts."""
     r = rng.random()
     if not tensor_only and r < 0.10:
-        return {"seq": gen_type(rng, True)}
+        return {"seq": gen_type(rng, True, True)}
     if not tensor_only and r < 0.17:
-        return {"opt": gen_type(rng, True) if rng.random() < 0.7 else {"seq": gen_type(rng, True)}}
-    e = rng.choice(list(ELEMS))
+        return {"opt": gen_type(rng, True, True) if rng.random() < 0.7 else {"seq": gen_type(rng, True, True)}}
+    e = rng.choice([x for x in ELEMS if not (basic and x in SIZE_LIFT)])
     rank = rng.choice([0, 1, 1, 2, 2, 3])
     return {"e": e, "d": [rng.choice([0, 1, 1, 2, 3, "N", "M", "K", None, None]) for _ in range(rank)]}
 
@@ -82,6 +122,8 @@ def feed_for(ty, rng: random.Random):
     shape = [SYM[d] if isinstance(d, str) else (2 if d is None else d) for d in ty["d"]]
     dt = ELEMS[ty["e"]][0]
     n = int(np.prod(shape)) if shape else 1
+    if ty["e"] == "str":
+        return np.array([str(rng.randrange(0, 4)) for _ in range(n)], dtype=np.str_).reshape(shape)
     if ty["e"] == "bool":
         vals = [rng.random() < 0.5 for _ in range(n)]
     elif ty["e"] in ("u8", "u16", "u32", "u64"):
@@ -89,6 +131,19 @@ def feed_for(ty, rng: random.Random):
     else:
         vals = [rng.randrange(-3, 4) for _ in range(n)]
     return np.array(vals, dtype=dt).reshape(shape)
+
+
+DEP_KEYS = ("a", "b", "init", "c", "m", "cnd", "xs")   # input edges of a node
+SUB_KEYS = ("then", "else", "body")                      # subgraph attributes of a node
+ROLE_TYPES = [{"e": "f32", "d": []}, {"e": "f32", "d": []}, {"e": "bool", "d": []}, {"e": "bool", "d": [1]}, {"e": "i64", "d": [1]},
+              {"e": "f32", "d": [2]}, {"e": "f32", "d": ["N"]}, {"e": "f32", "d": [None]}, {"e": "f32", "d": [0]}]
+
+
+def role_typed(ty) -> bool:
+    """Can an argument of this type be read directly by a node other than `lift` / `tcast`?"""
+    if "e" not in ty:
+        return False
+    return (ty["e"] == "f32" and len(ty["d"]) <= 1) or (ty["e"] == "bool" and ty["d"] in ([], [1])) or (ty["e"] == "i64" and ty["d"] == [1])
 
 
 # ----------------------------------------------------------------------------- generation
@@ -132,9 +187,9 @@ class _Gen:
                 r = 0.59  # a rewritable node (ReduceMax with an axes attribute) inside a body, fairly often
             if pending and rng.random() < 0.7:
                 nd = self.new({"k": "lift", "a": pending.pop()})
-            elif r < 0.05 and depth == 0 and [i for i in vis_any if self.info[i]["k"] == "arg" and "e" in self.info[i]["ty"]]:
+            elif r < 0.05 and depth == 0 and [i for i in vis_any if self.info[i]["k"] == "arg" and self.info[i]["ty"].get("e", "str") not in SIZE_LIFT]:
                 # a non-scalar value: Cast(argument) keeps the argument's dims (constant, zero, symbolic, unknown)
-                nd = self.new({"k": "tcast", "a": rng.choice([i for i in vis_any if self.info[i]["k"] == "arg" and "e" in self.info[i]["ty"]])})
+                nd = self.new({"k": "tcast", "a": rng.choice([i for i in vis_any if self.info[i]["k"] == "arg" and self.info[i]["ty"].get("e", "str") not in SIZE_LIFT])})
                 nodes.append(nd)
                 vis_any.append(nd["id"])
                 continue
@@ -158,13 +213,18 @@ class _Gen:
                     nd = self.new({"k": "cust", "a": rng.choice(vis_sc), "j": rng.randrange(len(CUSTOM_DOMAINS))})
             elif r < 0.63 and vis_sc:
                 nd = self.new({"k": "bin", "a": rng.choice(vis_sc)})  # ai.onnx.ml Binarizer: a second opset domain
-            elif r < 0.82 and vis_sc and depth < self.max_depth:
+            elif r < 0.78 and vis_sc and depth < self.max_depth:
                 a, b = rng.choice(vis_sc), rng.choice(vis_sc)
                 sz = rng.randrange(1, 4)
                 th = self.block(depth + 1, vis_any, vis_sc, sz, [], self._some_args(vis_any))
                 el = self.block(depth + 1, vis_any, vis_sc, rng.randrange(1, 3), [], self._some_args(vis_any))
-                nd = self.new({"k": "if", "a": a, "b": b, "then": th, "else": el})
-            elif vis_sc and depth < self.max_depth:
+                conds = self._args_typed(vis_any, "bool", [[], [1]])
+                if conds and rng.random() < 0.6:
+                    # the condition is an argument itself: read only as a control-flow operand
+                    nd = self.new({"k": "if", "c": rng.choice(conds), "then": th, "else": el})
+                else:
+                    nd = self.new({"k": "if", "a": a, "b": b, "then": th, "else": el})
+            elif r < 0.92 and vis_sc and depth < self.max_depth:
                 init = rng.choice(vis_sc)
                 fi = self.new({"k": "formal", "ty": {"e": "i64", "d": [1]}})
                 fc = self.new({"k": "formal", "ty": {"e": "bool", "d": [1]}})
@@ -173,7 +233,27 @@ class _Gen:
                 body = self.block(depth + 1, vis_any + [fi["id"], fa["id"]], vis_sc + [fa["id"]],
                                   rng.randrange(1, 4), formals_, self._some_args(vis_any))
                 body["res"] = [fc["id"], body["res"][0]]
-                nd = self.new({"k": "loop", "n": rng.randrange(0, 3), "init": init, "body": body})
+                node = {"k": "loop", "n": rng.randrange(0, 3), "init": init, "body": body}
+                trips, conds = self._args_typed(vis_any, "i64", [[1]]), self._args_typed(vis_any, "bool", [[1]])
+                if trips and rng.random() < 0.6:
+                    node["m"] = rng.choice(trips)      # the trip count is an argument itself
+                if conds and rng.random() < 0.5:
+                    node["cnd"] = rng.choice(conds)    # so is the initial condition
+                nd = self.new(node)
+            elif vis_sc and depth < self.max_depth:
+                # Scan: one state variable, one scan input (an f32 rank-1 argument directly, or a constant vector)
+                init = rng.choice(vis_sc)
+                fs = self.new({"k": "formal", "ty": dict(SCALAR)})
+                fx = self.new({"k": "formal", "ty": dict(SCALAR)})
+                formals_ = [fs["id"], fx["id"]]
+                body = self.block(depth + 1, vis_any + formals_, vis_sc + formals_,
+                                  rng.randrange(1, 4), formals_, self._some_args(vis_any))
+                body["res"] = [body["res"][0], rng.choice([fx["id"], body["res"][0]])]
+                node = {"k": "scan", "init": init, "body": body}
+                xss = self._args_typed(vis_any, "f32", 1)
+                if xss and rng.random() < 0.7:
+                    node["xs"] = rng.choice(xss)
+                nd = self.new(node)
             elif vis_any:
                 nd = self.new({"k": "lift", "a": rng.choice(vis_any)})
             else:
@@ -183,6 +263,14 @@ class _Gen:
         own_sc = [n["id"] for n in nodes if n["k"] != "tcast"]
         res = [rng.choice(own_sc)] if own_sc and (rng.random() < 0.85 or not vis_sc) else [rng.choice(vis_sc)] if vis_sc else []
         return {"formals": formals or [], "nodes": nodes, "res": res}
+
+    def _args_typed(self, vis_any, elem, dims):
+        """Visible *arguments* (not body formals) of a tensor type with that element type and one of
+        the given dims lists (an int: any dims of that rank)."""
+        def fits(d):
+            return len(d) == dims if isinstance(dims, int) else d in dims
+        return [i for i in vis_any if self.info[i]["k"] == "arg" and self.info[i]["ty"].get("e") == elem
+                and fits(self.info[i]["ty"]["d"])]
 
     def _some_args(self, vis_any):
         args = [i for i in vis_any if self.info[i]["k"] == "arg"]
@@ -194,15 +282,22 @@ def gen_program(rng: random.Random, n_args=None, size=None, max_depth=3, domains
     """A random program. Arguments are created first, interleaved with a few other top-level values.
     `domains`: also use operators of custom domains (such programs cannot be run by a runtime)."""
     g = _Gen(rng, max_depth, domains)
-    n_args = (rng.randrange(1, 7) if rng.random() < 0.9 else rng.randrange(7, 11)) if n_args is None else n_args
+    n_args = (rng.randrange(1, 7) if rng.random() < 0.9 else rng.randrange(7, 14)) if n_args is None else n_args
     size = rng.randrange(1, 9) if size is None else size
     top = []
     for _ in range(n_args):
-        top.append(g.new({"k": "arg", "ty": gen_type(rng)}))
+        # a third of the arguments have a type that lets them be a control-flow operand / a scalar operand
+        # directly: f32, bool, i64 of rank 0 (If condition, Loop trip count / condition / state), f32 rank 1 (Scan input)
+        if rng.random() < 0.33:
+            rt = rng.choice(ROLE_TYPES)
+            ty = {"e": rt["e"], "d": list(rt["d"])}
+        else:
+            ty = gen_type(rng)
+        top.append(g.new({"k": "arg", "ty": ty}))
         if rng.random() < 0.15:
             top.append(g.new({"k": "const", "v": float(rng.randrange(-2, 3))}))
     args = [n["id"] for n in top if n["k"] == "arg"]
-    scs = [n["id"] for n in top if n["k"] != "arg"]
+    scs = [n["id"] for n in top if n["k"] != "arg" or n["ty"] == SCALAR]
     blk = g.block(0, args, scs, size, [], [])
     top.extend(blk["nodes"])
     if rng.random() < 0.3:
@@ -268,8 +363,8 @@ def formal_nodes(prog):
     """ids that are formals of some body -> their node (formals are not in any "nodes" list)."""
     out = {}
     for nd in walk(prog["nodes"]):
-        if nd["k"] == "loop":
-            tys = [{"e": "i64", "d": [1]}, {"e": "bool", "d": [1]}, dict(SCALAR)]
+        if nd["k"] in ("loop", "scan"):
+            tys = [{"e": "i64", "d": [1]}, {"e": "bool", "d": [1]}, dict(SCALAR)] if nd["k"] == "loop" else [dict(SCALAR), dict(SCALAR)]
             for f, t in zip(nd["body"]["formals"], tys):
                 out[f] = {"k": "formal", "id": f, "ty": t}
     return out
@@ -307,14 +402,14 @@ def free_args(prog, out_ids):
             s = {i}
         elif k in ("const", "init", "junk"):
             s = set()
-        elif k in ("lift", "neg", "bin", "tcast", "cust", "rmax"):
-            s = set(of(nd["a"]))
-        elif k in ("add", "mul", "fun"):
-            s = of(nd["a"]) | of(nd["b"])
-        elif k == "if":
-            s = of(nd["a"]) | of(nd["b"]) | of_block(nd["then"]) | of_block(nd["else"])
-        elif k == "loop":
-            s = of(nd["init"]) | of_block(nd["body"])
+        elif k in ("lift", "neg", "bin", "tcast", "cust", "rmax", "add", "mul", "fun", "if", "loop", "scan"):
+            s = set()
+            for key in DEP_KEYS:          # every operand, control-flow operands included
+                if key in nd:
+                    s |= of(nd[key])
+            for key in SUB_KEYS:          # every body, minus its own formals
+                if key in nd:
+                    s |= of_block(nd[key])
         else:
             raise ValueError(k)
         memo[i] = s
@@ -340,7 +435,7 @@ def nesting_of_use(prog, out_ids):
         k = nd["k"]
         if k == "arg":
             best[i] = min(best.get(i, 99), depth)
-        for key in ("a", "b", "init"):
+        for key in DEP_KEYS:
             if key in nd:
                 visit(nd[key], depth)
         for key in ("then", "else", "body"):
@@ -351,6 +446,40 @@ def nesting_of_use(prog, out_ids):
     for o in out_ids:
         visit(o, 0)
     return best
+
+
+def use_kinds(prog, out_ids):
+    """For each top-level argument reachable from the outputs: how it is read — "operand" (input of an
+    ordinary operator), "cf" (directly the condition / trip count / state / scan input of If, Loop, Scan),
+    "result" (directly a result of a body), "output" (directly a requested output)."""
+    idx = index(prog)
+    kinds = {}
+    seen = set()
+
+    def note(i, kind):
+        if i in idx and idx[i]["k"] == "arg":
+            kinds.setdefault(i, set()).add(kind)
+
+    def visit(i):
+        if i in seen or i not in idx:
+            return
+        seen.add(i)
+        nd = idx[i]
+        cf = nd["k"] in ("if", "loop", "scan")
+        for key in DEP_KEYS:
+            if key in nd:
+                note(nd[key], "cf" if cf and key in ("c", "m", "cnd", "xs", "init") else "operand")
+                visit(nd[key])
+        for key in SUB_KEYS:
+            if key in nd:
+                for r in nd[key]["res"]:
+                    note(r, "result")
+                    visit(r)
+
+    for o in out_ids:
+        note(o, "output")
+        visit(o)
+    return kinds
 
 
 # ----------------------------------------------------------------------------- the Lean model's view
@@ -365,7 +494,7 @@ def to_objs(prog):
         o = {"var": k != "junk", "arg": k in ("arg", "formal"), "ty": "", "deps": [], "subs": []}
         if k != "junk":
             o["ty"] = ty_str(abstract_type(prog, i))
-        for key in ("a", "b", "init"):
+        for key in DEP_KEYS:
             if key in nd:
                 o["deps"].append(nd[key])
         for key in ("then", "else", "body"):
@@ -386,6 +515,8 @@ def lift_var(op, v):
         return op.cast(op.sequence_length(v), to=np.float32)
     if isinstance(t, spox.Optional):
         return op.cast(op.optional_has_element(v), to=np.float32)
+    if any(t.dtype == np.dtype(ELEMS[e][0]) for e in SIZE_LIFT if e in ELEMS):
+        return op.cast(op.size(v), to=np.float32)   # strings, bfloat16, complex: the number of elements
     return op.reduce_sum(op.cast(v, to=np.float32), keepdims=0)
 
 
@@ -454,7 +585,7 @@ def realize(prog, op=None):
                 env[i] = ml.binarizer(env[nd["a"]], threshold=0.5)
             elif k == "if":
                 (env[i],) = op.if_(
-                    op.less(env[nd["a"]], env[nd["b"]]),
+                    env[nd["c"]] if "c" in nd else op.less(env[nd["a"]], env[nd["b"]]),
                     then_branch=lambda nd=nd: block_results(nd["then"]),
                     else_branch=lambda nd=nd: block_results(nd["else"]),
                 )
@@ -464,8 +595,17 @@ def realize(prog, op=None):
                     env[f[0]], env[f[1]], env[f[2]] = it, cond, acc
                     return block_results(nd["body"])
 
-                (env[i],) = op.loop(op.const(np.array([nd["n"]], dtype=np.int64)), op.const(np.array([True])),
+                (env[i],) = op.loop(env[nd["m"]] if "m" in nd else op.const(np.array([nd["n"]], dtype=np.int64)),
+                                    env[nd["cnd"]] if "cnd" in nd else op.const(np.array([True])),
                                     [env[nd["init"]]], body=body)
+            elif k == "scan":
+                def sbody(st, x, nd=nd):
+                    f = nd["body"]["formals"]
+                    env[f[0]], env[f[1]] = st, x
+                    return block_results(nd["body"])
+
+                xs = env[nd["xs"]] if "xs" in nd else op.const(np.array([1.0, 2.0], dtype=np.float32))
+                env[i] = op.scan([env[nd["init"]], xs], body=sbody, num_scan_inputs=1)[0]
             else:
                 raise ValueError(k)
 
@@ -498,6 +638,8 @@ def evaluate(prog, feeds, out_ids):
                 v = np.float32(len(x))
             elif "opt" in ta:
                 v = np.float32(0.0 if x is None else 1.0)
+            elif ta.get("e") in SIZE_LIFT:
+                v = np.float32(np.asarray(x).size)
             else:
                 v = np.float32(np.asarray(x).astype(np.float32).sum())
         elif k == "tcast":
@@ -518,15 +660,28 @@ def evaluate(prog, feeds, out_ids):
         elif k == "bin":
             v = np.float32(1.0 if ev(nd["a"], env) > 0.5 else 0.0)
         elif k == "if":
-            blk = nd["then"] if ev(nd["a"], env) < ev(nd["b"], env) else nd["else"]
+            cond = bool(np.asarray(ev(nd["c"], env)).reshape(-1)[0]) if "c" in nd else ev(nd["a"], env) < ev(nd["b"], env)
+            blk = nd["then"] if cond else nd["else"]
             v = ev(blk["res"][0], dict_without(env, blk))
         elif k == "loop":
             acc = ev(nd["init"], env)
             f = nd["body"]["formals"]
-            for it in range(nd["n"]):
+            trips = int(np.asarray(ev(nd["m"], env)).reshape(-1)[0]) if "m" in nd else nd["n"]
+            if "cnd" in nd and not bool(np.asarray(ev(nd["cnd"], env)).reshape(-1)[0]):
+                trips = 0
+            for it in range(trips):
                 inner = dict_without(env, nd["body"])
                 inner[f[0]], inner[f[1]], inner[f[2]] = np.array([it], dtype=np.int64), np.array([True]), acc
                 acc = ev(nd["body"]["res"][1], inner)
+            v = acc
+        elif k == "scan":
+            acc = ev(nd["init"], env)
+            f = nd["body"]["formals"]
+            xs = np.asarray(ev(nd["xs"], env), dtype=np.float32) if "xs" in nd else np.array([1.0, 2.0], dtype=np.float32)
+            for x in xs.reshape(-1):
+                inner = dict_without(env, nd["body"])
+                inner[f[0]], inner[f[1]] = acc, np.float32(x)
+                acc = ev(nd["body"]["res"][0], inner)
             v = acc
         else:
             raise ValueError(k)
@@ -620,6 +775,11 @@ def _gen_request(rng: random.Random, prog, *, allow_bad=True, allow_dup=False):
             if a not in used and rng.random() < 0.5:
                 listed.remove(a)
         kind = "subset"
+    if rng.random() < 0.04:
+        # an empty `outputs` dictionary — alone (ValueError; the property is silent) or together with a bad
+        # input (the statement still demands TypeError: the order of build's checks is observable)
+        outs = []
+        kind += "+no-outputs"
     rng.shuffle(listed)
     names = [f"x{j}" for j in range(len(listed) + 2)] + ["in_a", "data", "Z", "arg"]
     rng.shuffle(names)
